@@ -208,3 +208,65 @@ func vpH_C07_T_stale_read() {
 	vpAssert("C18.leader-snapshot", s.e.Status().LeaderID == "a" && s.e.Status().Token == tok)
 	vpAuditLog(s.st, "a", false, 0, false)
 }
+
+// vpH_C07_T_stale_read_changed: fault-free, the answer to a read takes 150ms (well below H/2). The first owner
+// leaves at 350ms and a third instance takes the record at once (the follower's acquisition round started by the
+// vacancy keeps retrying with its usual back-off); at 450ms the record silently moves on to a fourth instance,
+// so the follower's periodic check at 500ms reads about a change of leader. That owner leaves at a symbolic
+// instant, the still-running round wins the vacancy, and only then is the answer to the read processed (the
+// watch loop itself is busy with that read). The new leader must stay leader, with its own token and identity
+// in every accessor.
+func vpH_C07_T_stale_read_changed() {
+	H := time.Second
+	vpSetOpt("rand-fixed", 1)
+	s := vpFollowingInstance(H, nil)
+	s.kv.getRespLat = 150 * time.Millisecond
+	go func() {
+		time.Sleep(350 * time.Millisecond)
+		s.st.write("env:other", "delete", nil, true, 0)
+		s.st.write("env:third", "create", vpRecMk("third", "tok-third", 0), false, 0)
+		time.Sleep(100 * time.Millisecond)
+		s.st.noEvents = true
+		s.st.write("env:fourth", "update", vpRecMk("fourth", "tok-fourth", 0), false, s.st.lastSeq)
+		s.st.noEvents = false
+		vpDelay("vacate", 0, 250*time.Millisecond)
+		if s.st.live() && s.st.writer == "env:fourth" {
+			s.st.write("env:fourth", "delete", nil, true, 0)
+			vpEvent("vacated")
+		}
+	}()
+	time.Sleep(1500 * time.Millisecond)
+	vpQuiesce()
+	if s.cb.promotes == 0 {
+		vpEndPath("not-elected-yet")
+	}
+	tok := s.cb.lastTok
+	vpAssert("C02.claim-backed", vpClaimBacked(s.e, s.st, "a"))
+	time.Sleep(2*H + H/2)
+	vpQuiesce()
+	vpCover("C07.stale-read-changed")
+	vpAssert("C07.no-spurious-edge", s.edges == 0 && s.e.IsLeader())
+	vpAssert("C07.no-demote-callback", s.cb.demotes == 0)
+	vpAssert("C07.token-stable", s.e.Token() == tok && s.cb.promotes == 1)
+	vpAssert("C02.claim-backed", vpClaimBacked(s.e, s.st, "a"))
+	vpAssert("C18.leader-snapshot", s.e.Status().LeaderID == "a" && s.e.Status().Token == tok)
+	vpAuditLog(s.st, "a", false, 0, false)
+}
+
+// vpH_C07_T_validation_slow: fault-free leader with a long heartbeat interval (H = 10 s, TTL 30 s) and a store
+// that answers every request after 3 s or just under H/2 = 5 s: its periodic validation (default
+// interval) must not mistake the slow answers for a lost record — never demoted, same token.
+func vpH_C07_T_validation_slow() {
+	tm := vpTiming{10 * time.Second, 30 * time.Second}
+	s := vpLeadingInstance(tm, 0, func(cfg *ElectionConfig) { cfg.ValidationInterval = 0 })
+	s.st.ttl = 0
+	s.kv.lat = []time.Duration{3 * time.Second, tm.H/2 - 1}[vpChoose("latency", 2)]
+	s.kv.latMin = s.kv.lat
+	s.kv.opLeft = 12
+	tok := s.e.Token()
+	time.Sleep(2*tm.H + tm.H/2)
+	vpQuiesce()
+	vpCover("C07.validation-slow")
+	vpAssert("C07.no-spurious-edge", s.e.IsLeader() && s.cb.demotes == 0)
+	vpAssert("C07.token-stable", s.e.Token() == tok)
+}
